@@ -434,3 +434,29 @@ mod test {
         assert!(!prog.diverging);
     }
 }
+
+#[cfg(nuts_rs_verif)]
+impl<M: Math, A: MassMatrixAdaptStrategy<M>> GlobalStrategy<M, A> {
+    /// `[num_tune, early_end, final_step_size_window, current_window_size, last_update,
+    /// has_initial_mass_matrix, foreground count, background count]`
+    pub fn verif_schedule_state(&self) -> [u64; 8] {
+        [
+            self.num_tune,
+            self.early_end,
+            self.final_step_size_window,
+            self.current_window_size,
+            self.last_update,
+            self.has_initial_mass_matrix as u64,
+            self.mass_matrix_adapt.current_count(),
+            self.mass_matrix_adapt.background_count(),
+        ]
+    }
+
+    pub fn verif_step_size(&self) -> &StepSizeStrategy {
+        &self.step_size
+    }
+
+    pub fn verif_mass_matrix_adapt(&self) -> &A {
+        &self.mass_matrix_adapt
+    }
+}
